@@ -586,7 +586,7 @@ def run(chk: Check):
         owners.append(("syn", case))
         src = case["src"]
         chk.case(("syn", case), src.count("\n") >= 1 or "\t" in src or case["line_range"] is not None)
-    workdir = os.path.join(VERIF, ".work", "c17-mods-%d" % os.getpid())
+    workdir = os.path.join(VERIF, ".work", "c%d" % os.getpid())
     shutil.rmtree(workdir, ignore_errors=True)
     os.makedirs(workdir)
     try:
